@@ -35,6 +35,8 @@
 //   idx <limit> <sets> <chunk> <hex>        -> lzma_index_decoder
 //   idxbuf <limit> <hex>                    -> lzma_index_buffer_decode: "ret memlimit_out peak"
 //   finfo <limit> <sets> <hex>              -> lzma_file_info_decoder over a whole file in memory
+//   sbuf <flags> <limit> <retries> <hex>    -> lzma_stream_buffer_decode with its in/out *memlimit, retried with the value written back
+//   ibuf <limit> <retries> <hex>            -> the same for lzma_index_buffer_decode
 #include "c09_alloc.h"
 #include "hproto.h"
 #include <time.h>
@@ -598,6 +600,47 @@ static void op_finfo(hp_line *l)
 	free(in);
 }
 
+// Single-call decoders with an in/out memory limit: lzma_stream_buffer_decode(&memlimit, …) / lzma_index_buffer_decode(&memlimit, …).
+//   sbuf <flags> <limit> <retries> <hex>     ibuf <limit> <retries> <hex>
+// Every call prints  B<ret>/<*memlimit afterwards>/<peak bytes of this call>/<*in_pos afterwards> ; after LZMA_MEMLIMIT_ERROR the call is
+// repeated with the value the function wrote back (at most <retries> times). After " | ": out positions, CRC32 of the output
+// of the last call, and the unlimited call  U=<ret>,<in_pos>,<out_pos>,<crc>,<*memlimit afterwards>.
+static void op_bufdec(hp_line *l, bool is_index)
+{
+	uint32_t flags = is_index ? 0 : (uint32_t)hp_u64(l->tok[1]);
+	uint64_t ml = hp_u64(l->tok[is_index ? 1 : 2]);
+	int retries = (int)hp_u64(l->tok[is_index ? 2 : 3]);
+	size_t len; uint8_t *in = hp_hex(l->tok[is_index ? 3 : 4], &len);
+	static uint8_t out[1 << 20];
+	char outs[512]; size_t on = 0;
+	uint32_t crc = 0; uint64_t digest = 0;
+	for (int attempt = 0; attempt <= retries; ++attempt) {
+		c09_counter cnt; lzma_allocator al; c09_counter_init(&cnt, &al);
+		size_t in_pos = 0, out_pos = 0;
+		lzma_index *idx = NULL;
+		lzma_ret ret = is_index ? lzma_index_buffer_decode(&idx, &ml, &al, in, &in_pos, len)
+				: lzma_stream_buffer_decode(&ml, flags, &al, in, &in_pos, len, out, &out_pos, sizeof(out));
+		printf("B%d/%" PRIu64 "/%" PRIu64 "/%zu ", (int)ret, ml, cnt.peak, in_pos);
+		if (is_index) { digest = index_digest(idx); out_pos = idx != NULL ? (size_t)lzma_index_block_count(idx) : 0; lzma_index_end(idx, &al); }
+		crc = is_index ? (uint32_t)digest : lzma_crc32(out, out_pos, 0);
+		on += (size_t)snprintf(outs + on, sizeof(outs) - on, "%s%zu", attempt ? "," : "", out_pos);
+		if (cnt.live != 0 || cnt.bad_free) printf("LEAK%" PRIu64 " ", cnt.live);
+		if (ret != LZMA_MEMLIMIT_ERROR || on > sizeof(outs) - 32)
+			break;
+	}
+	// unlimited reference
+	uint64_t uml = UINT64_MAX;
+	size_t uin = 0, uout = 0;
+	lzma_index *uidx = NULL;
+	c09_counter cnt; lzma_allocator al; c09_counter_init(&cnt, &al);
+	lzma_ret uret = is_index ? lzma_index_buffer_decode(&uidx, &uml, &al, in, &uin, len)
+			: lzma_stream_buffer_decode(&uml, flags, &al, in, &uin, len, out, &uout, sizeof(out));
+	uint32_t ucrc = is_index ? index_digest(uidx) : lzma_crc32(out, uout, 0);
+	if (is_index) { uout = uidx != NULL ? (size_t)lzma_index_block_count(uidx) : 0; lzma_index_end(uidx, &al); }
+	printf("| outs=%s crc=%" PRIu32 " U=%d,%zu,%zu,%" PRIu32 ",%" PRIu64 "\n", outs, crc, (int)uret, uin, uout, ucrc, uml);
+	free(in);
+}
+
 // ---------------------------------------------------------------------------------------------------------------
 // Drains an encoder whose input (strm->next_in / avail_in) has already been set up.
 static lzma_ret finish_encoder(lzma_stream *strm, uint64_t *out_total)
@@ -847,6 +890,10 @@ int main(void)
 			op_idx(&l);
 		} else if (!strcmp(op, "idxbuf") && l.ntok == 3) {
 			op_idxbuf(&l);
+		} else if (!strcmp(op, "sbuf") && l.ntok == 5) {
+			op_bufdec(&l, false);
+		} else if (!strcmp(op, "ibuf") && l.ntok == 4) {
+			op_bufdec(&l, true);
 		} else if (!strcmp(op, "finfo") && l.ntok == 4) {
 			op_finfo(&l);
 		} else {
